@@ -1,4 +1,4 @@
-SPECIFICATION Spec
+SPECIFICATION SpecPar
 CONSTANTS
   K = 2
   Variant = {}
